@@ -152,7 +152,7 @@ package preference_reversal
 
 // the bias takes ordering and split condition exactly as the shared parsers give them (no defaults of its own)
 //@ func parseProps
-//@   property C16 C20 C07 C09
+//@   property C16 C20 C07 C09 C01
 //@   ensures [ordering_as_requested] result0 != nil && result0.Ordering == (decoded_has(*props, "Ordering") ? decoded_str(*props, "Ordering") : "")
 //@   ensures [split_as_requested] result1 != nil && result1.Ratio == (decoded_has(*props, "Ratio") ? decoded_real(*props, "Ratio") : 0.0)
 //@             && result1.Min == (decoded_has(*props, "Min") ? decoded_int(*props, "Min") : 0)
@@ -169,9 +169,11 @@ package preference_reversal
 //@ wire PreferenceReversalResult
 //@   property C01 C07 C09 C16 C20
 //@   json ReversedPreferenceCriteria=reversedPreferenceCriteria
+//@   gotypes ReversedPreferenceCriteria=[]ReversedPreferenceCriterion
 //@ wire ReversedPreferenceCriterion
 //@   property C01 C07 C09 C16 C20
 //@   json Id=id Type=type ValuesRange=valuesRange AlternativesValues=alternativesValues
+//@   gotypes Id=string Type=model.CriterionType ValuesRange=utils.ValueRange AlternativesValues=model.Weights
 
 // ---- registered names (what a request must say to select this object; what error messages list)
 //@ func (*PreferenceReversal).Identifier
